@@ -51,7 +51,7 @@ Proof.
                 (rest_src_tag _) (fun _ => eq_refl) ltac:(intros E; congruence) Hpc) as (st' & l1 & Hrun & _ & (txt & Htx & Hdd1 & Hres)).
     destruct Hres as [(A & _)|(_ & -> & Ho1 & Hs1 & _)]; [discriminate A|].
     cbn [rest_src] in Hs1.
-    destruct Hcmd as [Hcmd|[Hname Hcl]].
+    destruct Hcmd as [Hcmd|(sp & Hsp & Hname & Hcl)].
     + destruct (lex_special_cmd uni_letter uni_digit letter_ascii digit_ascii letter_eof digit_eof inp l1 n o (T' ++ rest_src r) Hcmd Hs1)
         as (k2 & l2 & ld & c & rd & Hst2 & Hs2 & Ho2 & Hld & Hrd & Hc & Hla2 & Hv2 & Hdd2).
       assert (Hpw : pwof 0 l2 = false).
@@ -64,7 +64,7 @@ Proof.
       { rewrite Ho3, Ho2, Ho1, rev_app_distr. cbn [rev]. rewrite <- !app_assoc. reflexivity. }
       eapply s2_cmd; eassumption.
     + cbn [fst snd] in Hname, Hcl. subst n.
-      destruct (lex_literal_cmd uni_letter uni_digit letter_ascii digit_ascii letter_eof digit_eof inp l1 o (T' ++ rest_src r) Hs1 Hcl)
+      destruct (lex_literal_cmd uni_letter uni_digit letter_ascii digit_ascii letter_eof digit_eof inp l1 sp o (T' ++ rest_src r) Hsp Hs1 Hcl)
         as (k2 & l2 & ld & kw & rd & tx & ld2 & ke & rd2 & Hst2 & Hs2 & Ho2 & A1 & A2 & A3 & A4 & A5 & A6 & A7 & A8 & Hla2 & Hv2 & Hdd2).
       assert (Hpw : pwof 0 l2 = false).
       { unfold pwof. rewrite Hla2, Hv2. reflexivity. }
